@@ -21,6 +21,15 @@ def noPanic (t : Trace) : Bool :=
     | .panic _ => false
     | _ => true
 
+/-- The popularity readings `freq k` that white-box histories issue before every insert are
+hook reads that change nothing (`C15_sync_step`, `C15_unsync_iter_step`: they are pure); the
+window rules that look at `snapshot, operation, snapshot` judge the trace without them. For
+model traces this is the trace of the history without those reads. -/
+def noFreq (t : Trace) : Trace :=
+  t.filter fun oo => match oo.1 with
+    | .freq _ => false
+    | _ => true
+
 /-! ### C10: counters equal physical holdings -/
 
 def snapCountersOk (w : Nat → Nat → Nat) (sn : Snap) : Bool :=
@@ -71,6 +80,31 @@ def oracleC11 : Trace → Bool
   | (_, .badOp) :: _ => true
   | (_, .snap sn) :: rest => liveOk sn && liveBounded sn && oracleC11 rest
   | _ :: rest => oracleC11 rest
+
+/-! ### C14 on the caches: only lookups feed the estimator
+
+White-box: across an operation that is not a `get` (and, on the concurrent cache, with no
+recorded read waiting to be applied) the popularity estimate of every key that is resident
+before and after stays what it was, unless the sketch was switched on in between (it starts
+empty, so every estimate is then 0). -/
+
+def freqsKept (before after : Snap) : Bool :=
+  before.freqs.all fun kf =>
+    match after.freqs.find? (fun kf' => kf'.1 == kf.1) with
+    | some kf' => kf'.2 == kf.2 || (!before.skOn && after.skOn && kf'.2 == 0)
+    | none => true
+
+def onlyGetC14 : Trace → Bool
+  | (.snap, .snap before) :: (op, ob) :: (.snap, .snap after) :: rest =>
+    (let isGet := match op with
+       | .get _ => true
+       | _ => false
+     isGet || !(before.rq == 0) || freqsKept before after) &&
+    (match ob with
+     | .panic _ => true
+     | _ => onlyGetC14 ((.snap, .snap after) :: rest))
+  | _ :: rest => onlyGetC14 rest
+  | [] => true
 
 /-! ### Reference bookkeeping for the lookup properties (C01, C05, C06, C07, C16)
 
